@@ -468,6 +468,17 @@ def _spool(rec):
 
 
 def _mirror(cases, results, workdir, label, case_timeout, stack_mib, extra_env):
+    old = sys.getrecursionlimit()
+    sys.setrecursionlimit(max(old, 20000))  # C05 / C12 produce records nested hundreds of levels deep
+    try:
+        _mirror_(cases, results, workdir, label, case_timeout, stack_mib, extra_env)
+    except RecursionError:
+        MIRROR_STATS["skipped_too_deep"] = MIRROR_STATS.get("skipped_too_deep", 0) + 1
+    finally:
+        sys.setrecursionlimit(old)
+
+
+def _mirror_(cases, results, workdir, label, case_timeout, stack_mib, extra_env):
     stride = max(1, int(MIRROR.get("stride", 5)))
     offset = int(MIRROR.get("offset", 0)) % stride
     idx = [k for k in range(len(cases)) if k % stride == offset and isinstance(results[k], dict) and not _has_fault(results[k])]
